@@ -20,6 +20,9 @@ type half struct {
 	mu       sync.Mutex
 	cond     *sync.Cond
 	buf      []byte
+	waiting  int    // readers blocked on an empty buffer
+	log      []byte // every byte ever written (capped)
+	total    int
 	wclosed  bool // writer closed: reader gets EOF after draining
 	rclosed  bool // reader closed: writer gets EPIPE-like error
 	deadline time.Time
@@ -51,6 +54,7 @@ func (c *bufConn) Read(p []byte) (int, error) {
 		if len(h.buf) > 0 {
 			n := copy(p, h.buf)
 			h.buf = h.buf[n:]
+			h.cond.Broadcast()
 			return n, nil
 		}
 		if h.wclosed {
@@ -59,7 +63,10 @@ func (c *bufConn) Read(p []byte) (int, error) {
 		if !h.deadline.IsZero() && !time.Now().Before(h.deadline) {
 			return 0, timeoutErr{}
 		}
+		h.waiting++
+		h.cond.Broadcast()
 		h.cond.Wait()
+		h.waiting--
 	}
 }
 
@@ -74,6 +81,10 @@ func (c *bufConn) Write(p []byte) (int, error) {
 		return 0, errors.New("write: broken pipe")
 	}
 	h.buf = append(h.buf, p...)
+	h.total += len(p)
+	if len(h.log) < 1<<16 {
+		h.log = append(h.log, p...)
+	}
 	h.cond.Broadcast()
 	return len(p), nil
 }
@@ -119,3 +130,94 @@ func (c *bufConn) RemoteAddr() net.Addr               { return addr("remote") }
 func (c *bufConn) SetDeadline(t time.Time) error      { c.setRD(t); return nil }
 func (c *bufConn) SetReadDeadline(t time.Time) error  { c.setRD(t); return nil }
 func (c *bufConn) SetWriteDeadline(t time.Time) error { return nil }
+
+// BufConn is the exported view of one end of an in-memory connection.
+type BufConn interface {
+	net.Conn
+	// WaitPeerBlocked waits until the other end is blocked in Read with nothing left to read
+	// (it consumed everything written so far), or the connection is closed. False on timeout.
+	WaitPeerBlocked(timeout time.Duration) bool
+	// Quiescent: both ends parked in Read on empty buffers, observed atomically.
+	Quiescent() bool
+	// WaitPeerDrained waits until the other end has read everything written to it so far.
+	WaitPeerDrained(timeout time.Duration) bool
+	// Received returns a copy of all bytes the other end has written to this end so far.
+	Received() []byte
+	// PeerClosed reports whether the other end closed the connection.
+	PeerClosed() bool
+}
+
+func (c *bufConn) WaitPeerBlocked(timeout time.Duration) bool {
+	h := c.wr
+	deadline := time.Now().Add(timeout)
+	t := time.AfterFunc(timeout, func() { h.mu.Lock(); h.cond.Broadcast(); h.mu.Unlock() })
+	defer t.Stop()
+	h.mu.Lock()
+	defer h.mu.Unlock()
+	for {
+		if (h.waiting > 0 && len(h.buf) == 0) || h.rclosed || h.wclosed {
+			return true
+		}
+		if !time.Now().Before(deadline) {
+			return false
+		}
+		h.cond.Wait()
+	}
+}
+
+// WaitPeerDrained waits until the other end has read everything this end wrote (and is blocked
+// waiting for more, or this end has been closed for writing and nothing is left).
+func (c *bufConn) WaitPeerDrained(timeout time.Duration) bool {
+	h := c.wr
+	deadline := time.Now().Add(timeout)
+	t := time.AfterFunc(timeout, func() { h.mu.Lock(); h.cond.Broadcast(); h.mu.Unlock() })
+	defer t.Stop()
+	h.mu.Lock()
+	defer h.mu.Unlock()
+	for {
+		if len(h.buf) == 0 && (h.waiting > 0 || h.wclosed || h.rclosed) {
+			return true
+		}
+		if h.rclosed {
+			return true
+		}
+		if !time.Now().Before(deadline) {
+			return false
+		}
+		h.cond.Wait()
+	}
+}
+
+// Quiescent reports, atomically over both directions, that each end is parked in Read on an empty
+// buffer (or the connection is closed in that direction): nothing can happen without new input.
+func (c *bufConn) Quiescent() bool {
+	a, b := c.rd, c.wr
+	a.mu.Lock()
+	b.mu.Lock()
+	defer a.mu.Unlock()
+	defer b.mu.Unlock()
+	idle := func(h *half) bool {
+		return (h.waiting > 0 && len(h.buf) == 0) || h.rclosed || (h.wclosed && len(h.buf) == 0)
+	}
+	return idle(a) && idle(b)
+}
+
+func (c *bufConn) Received() []byte {
+	h := c.rd
+	h.mu.Lock()
+	defer h.mu.Unlock()
+	return append([]byte{}, h.log...)
+}
+
+func (c *bufConn) PeerClosed() bool {
+	h := c.rd
+	h.mu.Lock()
+	defer h.mu.Unlock()
+	return h.wclosed
+}
+
+// NewBufConns is NewBufConnPair with the richer interface.
+func NewBufConns() (BufConn, BufConn) {
+	a, b := NewBufConnPair()
+	return a.(*bufConn), b.(*bufConn)
+}
